@@ -2660,6 +2660,9 @@ class RockRidge:
         if entries.px_record is not None:
             outlist.append(entries.px_record.record(self.rr_version))
 
+        if entries.pn_record is not None:
+            outlist.append(entries.pn_record.record())
+
         for sl_record in entries.sl_records:
             outlist.append(sl_record.record())
 
